@@ -46,7 +46,9 @@ Handle == st # "none"
 \* the path is taken by a file that no dictionary object of ours produced (see Occupy)
 foreign == st = "none" /\ exists
 
-Outcomes == {"ok", "KeyError", "ValueError", "TypeError", "FileExistsError", "FileNotFoundError"}
+\* "ok" or the exception raised, named by the nearest of these built-in classes among its base classes ("Error": none of them)
+Outcomes == {"ok", "KeyError", "ValueError", "TypeError", "FileExistsError", "FileNotFoundError", "Error"}
+Refusals == Outcomes \ {"ok"}
 
 TypeOK == /\ d \in Maps /\ onDisk \in Maps /\ src \in Maps
           /\ st \in {"none", "open", "closed"}
@@ -64,9 +66,10 @@ PInit == /\ st = "none" /\ d = Empty /\ onDisk = Empty /\ exists = FALSE
 \* every operation on a closed dictionary raises ValueError
 OpenOuts == IF opened THEN {"ok"} ELSE {"ValueError"}
 
-\* a value that is not a byte string is refused (TypeError); on a closed dictionary either refusal is fine
-SetOuts(v) == IF opened THEN (IF v = NB THEN {"TypeError"} ELSE {"ok"})
-              ELSE IF v = NB THEN {"ValueError", "TypeError"} ELSE {"ValueError"}
+\* a value that is not a byte string is refused (the property does not say with which exception); on a closed dictionary
+\* a refusal for either reason is fine
+SetOuts(v) == IF opened THEN (IF v = NB THEN Refusals ELSE {"ok"})
+              ELSE IF v = NB THEN Refusals ELSE {"ValueError"}
 
 KeyOuts(k) == IF opened THEN (IF d[k] # Absent THEN {"ok"} ELSE {"KeyError"}) ELSE {"ValueError"}
 
